@@ -126,8 +126,11 @@ var flagWords = []uint16{0, 1 << 15, 1 << 14, 1 << 13, 1 << 12, 1 << 11, 0x7800,
 var rdLens = []int{0, 1, 4, 16, 255, 256, 65535}
 
 func pickU16(rng *rand.Rand) uint16 {
-	if rng.IntN(2) == 0 {
+	switch rng.IntN(4) {
+	case 0, 1:
 		return boundaryU16[rng.IntN(len(boundaryU16))]
+	case 2:
+		return uint16(rng.IntN(0x42)) // the small codes, where every assigned type and class lives
 	}
 	return uint16(rng.Uint32())
 }
@@ -153,9 +156,31 @@ func genBytes(rng *rand.Rand, n int) []byte {
 	return b
 }
 
+// nameShapedRData: RDATA that reads as a domain name at its place in a packet: plain labels, labels
+// ending in a pointer to offset 12 (where the first name of any message starts), a pointer alone.
+// To a codec RDATA is opaque; it comes back as these octets whatever the record's type.
+func nameShapedRData(rng *rand.Rand) []byte {
+	var b []byte
+	for i := rng.IntN(3); i > 0; i-- {
+		l := genLabel(rng, 1+rng.IntN(8), 0)
+		b = append(append(b, byte(len(l))), l...)
+	}
+	switch rng.IntN(4) {
+	case 0:
+		b = append(b, 0)
+	case 1:
+		b = append(b, 0xC0, 0x0C, 0)
+	default:
+		b = append(b, 0xC0, 0x0C)
+	}
+	return b
+}
+
 func genRData(rng *rand.Rand, allowBig bool) []byte {
 	var n int
-	switch rng.IntN(10) {
+	switch rng.IntN(11) {
+	case 10:
+		return nameShapedRData(rng)
 	case 0:
 		n = 0
 	case 1:
